@@ -1,5 +1,191 @@
-"""placeholder until the variant corpus is written"""
+"""Mutation self-test of the rules (DESIGN.md 2.4).
+
+A *variant* is one edit of a scratch copy of the repository (outside /repo
+and /verif).  ``armed`` variants must make the property's check report a new
+finding of the named rule; ``benign`` variants (behaviour-preserving
+refactorings) must leave the set of findings unchanged.  Edits are
+anchored on normalised source snippets; a variant whose anchor is not present
+in the current tree (because /repo was edited) is *skipped*, not failed -
+but at least MIN_APPLICABLE of a property's variants must apply.
+
+Variants live in ``synlint/variants/<id>.py`` as a list ``VARIANTS`` of
+dicts: name, kind ('armed'|'benign'), file, old, new, [count], [expect_rule],
+[expect_construct].
+"""
+
+from __future__ import annotations
+
+import importlib
+import json
+import os
+import random
+import shutil
+import subprocess
+import sys
+import tempfile
+from concurrent.futures import ProcessPoolExecutor
+from typing import Dict, List
+
+COPY = ["synrbl", "Data/Rules", "Scripts", "Pipeline", "per_dataset_benchmark.py"]
+MIN_APPLICABLE_FRACTION = 0.6
 
 
-def run_variants(prop, repo, seed):
-    return {"armed_ok": 0, "benign_ok": 0, "failures": [], "variants": []}
+def _ignore(d, names):
+    return [n for n in names if n == "__pycache__" or n.endswith(".dump") or n.endswith(".pyc")]
+
+
+def make_scratch(repo: str) -> str:
+    base = os.environ.get("TMPDIR", "/tmp")
+    d = tempfile.mkdtemp(prefix="synlint-scratch-", dir=base)
+    for c in COPY:
+        src = os.path.join(repo, c)
+        dst = os.path.join(d, c)
+        if os.path.isdir(src):
+            shutil.copytree(src, dst, ignore=_ignore)
+        elif os.path.isfile(src):
+            os.makedirs(os.path.dirname(dst), exist_ok=True)
+            shutil.copy2(src, dst)
+    return d
+
+
+def apply_edit(root: str, v: dict) -> bool:
+    edits = v.get("edits") or [v]
+    for e in edits:
+        path = os.path.join(root, e["file"])
+        if not os.path.exists(path):
+            return False
+        if e["file"].endswith(".gz"):
+            import gzip
+
+            with gzip.open(path, "rt") as fh:
+                src = fh.read()
+        else:
+            with open(path) as fh:
+                src = fh.read()
+        if "fn" in e:
+            new = e["fn"](src)
+            if new is None or new == src:
+                return False
+        else:
+            if e["old"] not in src:
+                return False
+            cnt = e.get("count", 1)
+            new = src.replace(e["old"], e["new"], cnt)
+        if e["file"].endswith(".gz"):
+            import gzip
+
+            with gzip.open(path, "wt") as fh:
+                fh.write(new)
+        else:
+            with open(path, "w") as fh:
+                fh.write(new)
+    return True
+
+
+def _findings(prop: str, repo: str) -> List[dict]:
+    """Run the property's check in a fresh interpreter on ``repo``."""
+    here = os.path.dirname(os.path.dirname(os.path.abspath(__file__)))
+    tmp_ev = tempfile.mkdtemp(prefix="synlint-ev-", dir=os.environ.get("TMPDIR", "/tmp"))
+    try:
+        p = subprocess.run(
+            [sys.executable, "-B", "-m", "synlint.cli", prop, "--repo", repo, "--no-known", "--json", "--evidence-dir", tmp_ev],
+            cwd=here,
+            capture_output=True,
+            text=True,
+            timeout=300,
+        )
+        out = p.stdout.strip().splitlines()
+        for line in reversed(out):
+            if line.startswith("{"):
+                return json.loads(line)["findings"], p.returncode, p.stdout[-2000:]
+        return None, p.returncode, (p.stdout + p.stderr)[-2000:]
+    finally:
+        shutil.rmtree(tmp_ev, ignore_errors=True)
+
+
+def _run_one(args):
+    prop, repo, v, baseline_keys = args
+    v = dict(v)
+    d = make_scratch(repo)
+    try:
+        if not apply_edit(d, _load_variant(prop, v["name"])):
+            return {"name": v["name"], "kind": v["kind"], "status": "skipped", "detail": "anchor not present in the current tree"}
+        # the variant must still be valid Python
+        for e in (_load_variant(prop, v["name"]).get("edits") or [v]):
+            if e["file"].endswith(".py"):
+                import ast as _ast
+
+                with open(os.path.join(d, e["file"])) as fh:
+                    try:
+                        _ast.parse(fh.read())
+                    except SyntaxError as ex:
+                        return {"name": v["name"], "kind": v["kind"], "status": "broken-variant", "detail": "does not parse: %s" % ex}
+        fnd, rc, tail = _findings(prop, d)
+        if fnd is None:
+            if v["kind"] == "armed" and v.get("expect_error") and rc == 2:
+                return {"name": v["name"], "kind": v["kind"], "status": "ok", "detail": "analysis refuses the tree (exit 2) as expected"}
+            return {"name": v["name"], "kind": v["kind"], "status": "fail", "detail": "check produced no verdict (rc=%s): %s" % (rc, tail[-300:])}
+        keys = {(f["rule"], f["construct"]) for f in fnd}
+        new = keys - baseline_keys
+        gone = baseline_keys - keys
+        if v["kind"] == "armed":
+            want_rule = v.get("expect_rule", "")
+            want_c = v.get("expect_construct", "")
+            hit = [k for k in new if k[0].startswith(want_rule) and want_c in k[1]]
+            if hit:
+                return {"name": v["name"], "kind": "armed", "status": "ok", "detail": "%s %s" % hit[0]}
+            return {"name": v["name"], "kind": "armed", "status": "fail", "detail": "expected new finding %s/%s, got new=%s" % (want_rule, want_c, sorted(new))}
+        else:
+            if not new and (not gone or v.get("may_remove")):
+                return {"name": v["name"], "kind": "benign", "status": "ok", "detail": ""}
+            return {"name": v["name"], "kind": "benign", "status": "fail", "detail": "findings changed: new=%s gone=%s" % (sorted(new), sorted(gone))}
+    finally:
+        shutil.rmtree(d, ignore_errors=True)
+
+
+def _load_variant(prop: str, name: str) -> dict:
+    mod = importlib.import_module("synlint.variants.%s" % prop.lower())
+    for v in mod.VARIANTS:
+        if v["name"] == name:
+            return v
+    raise KeyError(name)
+
+
+def run_variants(prop: str, repo: str, seed: int, jobs: int = 16) -> dict:
+    try:
+        mod = importlib.import_module("synlint.variants.%s" % prop.lower())
+    except ModuleNotFoundError:
+        return {"armed_ok": 0, "benign_ok": 0, "failures": ["no variant corpus for %s" % prop], "variants": []}
+    variants = list(mod.VARIANTS)
+    rnd = random.Random(seed)
+    rnd.shuffle(variants)
+    base, rc, tail = _findings(prop, repo)
+    if base is None:
+        return {"armed_ok": 0, "benign_ok": 0, "failures": ["baseline run gave no verdict: %s" % tail[-300:]], "variants": []}
+    baseline_keys = {(f["rule"], f["construct"]) for f in base}
+    light = [{"name": v["name"], "kind": v["kind"], "file": (v.get("edits") or [v])[0]["file"], "expect_rule": v.get("expect_rule", ""), "expect_construct": v.get("expect_construct", ""), "may_remove": v.get("may_remove", False), "expect_error": v.get("expect_error", False)} for v in variants]
+    with ProcessPoolExecutor(max_workers=min(jobs, max(1, len(light)))) as ex:
+        results = list(ex.map(_run_one, [(prop, repo, v, baseline_keys) for v in light]))
+    failures = ["%s (%s): %s" % (r["name"], r["kind"], r["detail"]) for r in results if r["status"] in ("fail", "broken-variant")]
+    skipped = [r for r in results if r["status"] == "skipped"]
+    applicable = len(results) - len(skipped)
+    if results and applicable < MIN_APPLICABLE_FRACTION * len(results):
+        failures.append("only %d of %d variants apply to the current tree" % (applicable, len(results)))
+    return {
+        "armed_ok": sum(1 for r in results if r["status"] == "ok" and r["kind"] == "armed"),
+        "benign_ok": sum(1 for r in results if r["status"] == "ok" and r["kind"] == "benign"),
+        "skipped": [r["name"] for r in skipped],
+        "failures": failures,
+        "variants": sorted(results, key=lambda r: r["name"]),
+        "seed": seed,
+    }
+
+
+if __name__ == "__main__":
+    prop = sys.argv[1]
+    repo = sys.argv[2] if len(sys.argv) > 2 else "/repo"
+    res = run_variants(prop, repo, int(os.environ.get("VERIF_SEED", "0") or 0))
+    for r in res["variants"]:
+        print("%-8s %-6s %-50s %s" % (r["status"], r["kind"], r["name"], r["detail"][:150]))
+    print("armed_ok=%d benign_ok=%d skipped=%d failures=%d" % (res["armed_ok"], res["benign_ok"], len(res.get("skipped", [])), len(res["failures"])))
+    sys.exit(1 if res["failures"] else 0)
